@@ -57,14 +57,20 @@ pub fn decompress_patch_data(data: &[u8], spec: &ESpec) -> PatchArchiveResult<Ve
         ESpec::BlockTable { chunks } => {
             // Complex block-based compression
             let mut output = Vec::new();
-            let mut offset = 0;
+            let mut offset = 0usize;
 
             for chunk in chunks {
                 // Determine range for this chunk
                 let chunk_end = if let Some(size_spec) = &chunk.size_spec {
-                    let size = size_spec.size as usize;
-                    let count = size_spec.count.unwrap_or(1) as usize;
-                    (offset + size * count).min(data.len())
+                    // size and count come from the spec string: a range that
+                    // does not fit the address space ends with the data
+                    let count = u64::from(size_spec.count.unwrap_or(1));
+                    size_spec
+                        .size
+                        .checked_mul(count)
+                        .and_then(|len| usize::try_from(len).ok())
+                        .and_then(|len| offset.checked_add(len))
+                        .map_or(data.len(), |end| end.min(data.len()))
                 } else {
                     // Final chunk with * specifier
                     data.len()
@@ -111,8 +117,15 @@ pub fn get_compression_at_offset(spec: &ESpec, offset: u64) -> &ESpec {
             for chunk in chunks {
                 if let Some(size_spec) = &chunk.size_spec {
                     let size = size_spec.size;
-                    let count = size_spec.count.unwrap_or(1) as u64;
-                    let chunk_end = current_offset + size * count;
+                    let count = u64::from(size_spec.count.unwrap_or(1));
+                    // size and count come from the spec string: a range whose
+                    // end does not fit in 64 bits covers every later offset
+                    let Some(chunk_end) = size
+                        .checked_mul(count)
+                        .and_then(|len| current_offset.checked_add(len))
+                    else {
+                        return &chunk.spec;
+                    };
 
                     if offset >= current_offset && offset < chunk_end {
                         return &chunk.spec;
@@ -162,6 +175,23 @@ mod tests {
                 assert!(chunks.len() >= 3);
             }
             _ => unreachable!("Test should produce BlockTable"),
+        }
+    }
+
+    #[test]
+    fn test_block_range_beyond_u64_does_not_overflow() {
+        // size * count does not fit in 64 bits; a later block would start beyond u64::MAX
+        for text in [
+            "b:{18446744073709551615*2=n,*=z}",
+            "b:{18446744073709551615=n,2=n,*=z}",
+        ] {
+            let spec = parse_compression_spec(text).expect("Operation should succeed");
+            assert_eq!(
+                decompress_patch_data(b"hello world", &spec).expect("Operation should succeed"),
+                b"hello world"
+            );
+            assert_eq!(get_compression_at_offset(&spec, 5), &ESpec::None);
+            assert_eq!(get_compression_at_offset(&spec, u64::MAX), &ESpec::None);
         }
     }
 
